@@ -1,8 +1,9 @@
 import DmrVerif.Props.C16
 import DmrVerif.Lemmas.TranslArsMsg
+import DmrVerif.Lemmas.TranslTmsMsg
 
 /-!
-# C16t — the SOURCE of the Motorola ARS codec, translated, equals the model of C16
+# C16t — the SOURCE of the Motorola ARS and TMS codecs, translated, equals the models of C16
 
 `Gen/TranslArs.lean` is regenerated on every run by `tools/py2lean_obj.py` (on top of `tools/py2lean_bits.py` / `tools/py2lean.py`)
 from `inspect.getsource` of the live `FirstHeader`, `ResponseSecondHeader`, `RegistrationRequestHeader`
@@ -23,10 +24,22 @@ unimplemented types and for a response header without usable field, …), every 
 every `str` / `None` for `encode_len_val`.  Objects are compared attribute by attribute (`arsObj`, `fhObj`, `rrhObj`, `rshObj`
 spell out the attributes of the Python object in terms of the model's record).  The headline theorems of C16 are restated about
 the translated source (`transl_*`).
+
+Second half (`tms_*`): `Gen/TranslTms.lean`, the same for `okdmr/dmrlib/motorola/text_messaging_service.py` — `FirstHeader`
+(`__init__`, `set_has_more_headers`, `from_bytes`, `as_bytes`), `AvailabilitySecondHeader`, `TextMessagingService` (`__init__`,
+`decode_sn_and_encoding`, `encode_sn_and_encoding`, `encode_address_field`, `from_bytes`, `as_bytes`) against `Model/Tms.lean`.
+A `TMSPDUType` member (pair-valued Enum) is its number in the order of `Gen.Tms.pduTypeVal`.  `TextMessagingService.as_bytes`
+calls `self.header.set_has_more_headers(...)`, which CHANGES the header object of the message in place; the translated
+definition gives the returned octets only (that side effect is C19's subject, and no translated function calls `as_bytes`).
+Addresses and texts are opaque octet strings (no codec at the boundary); the only `Ext` fields are `bytes_to_bits` /
+`bits_to_bytes`.
 -/
 
 namespace Dmr.C16t
-open Dmr Dmr.Py Dmr.PyBits Dmr.PyObj Dmr.Transl.Ars
+open Dmr Dmr.Py Dmr.PyBits Dmr.PyObj
+
+section ARS
+open Dmr.Transl.Ars
 
 /-! ## helpers -/
 
@@ -203,5 +216,113 @@ example :
     AutomaticRegistrationService.read_len_val modelExt (hexb "0203040506") (-5) = .ok (-2, hexb "0304") ∧
     FirstHeader.from_bytes modelExt (hexb "f2") = .error .value := by
   decide +kernel
+
+end ARS
+
+/-! # TMS -/
+
+section TMS
+open Dmr.Transl.Tms
+
+/-- TMS `FirstHeader.from_bytes(data)` -/
+theorem tms_first_header_from_bytes_eq (d : Bytes) (hd : Transl.Tms.isBytes d) :
+    FirstHeader.from_bytes modelExt d = match d with
+      | [] => .error .assertion
+      | b :: _ => ofE fhObj (Tms.headerOfByte b) := Transl.Tms.fh_from_bytes_eq d hd
+
+/-- TMS `FirstHeader.as_bytes()` for all 8 × 3 headers (reserved bit forced for text messages) -/
+theorem tms_first_header_as_bytes_eq (h : Tms.FirstHeader) :
+    FirstHeader.as_bytes modelExt (fhObj h) = ofE (fun b => [b]) (Tms.headerByte h) := Transl.Tms.fh_as_bytes_eq h
+
+/-- `set_has_more_headers(b)` (value and returned object) -/
+theorem tms_set_has_more_headers_eq (h : Tms.FirstHeader) (more : Bool) :
+    FirstHeader.set_has_more_headers modelExt (fhObj h) more = .ok (fhObj { h with more := more }, ()) :=
+  Transl.Tms.set_more_eq h more
+
+/-- `AvailabilitySecondHeader.from_bytes(data)`: `IndexError` on no data, else `TMSDeviceCapability(data[0] & 3)` -/
+theorem tms_availability_from_bytes_eq (d : Bytes) (hd : Transl.Tms.isBytes d) :
+    AvailabilitySecondHeader.from_bytes modelExt d = match d with
+      | [] => .error .index
+      | b :: _ => ofE capObj (match Tms.capOfCode (b % 4) with | none => .error .value | some c => .ok c) :=
+  Transl.Tms.cap_from_bytes_eq d hd
+
+theorem tms_availability_as_bytes_eq (c : Nat) :
+    AvailabilitySecondHeader.as_bytes modelExt (capObj c) = if c ≥ 256 then .error .overflow else .ok [c] :=
+  Transl.Tms.cap_as_bytes_eq c
+
+/-- `encode_sn_and_encoding()` for EVERY sequence number (`None`: `TypeError`; ≥ 128: `OverflowError`) and encoding -/
+theorem tms_encode_sn_eq (m : Tms.Msg) :
+    TextMessagingService.encode_sn_and_encoding modelExt (tmsObj m) = ofE id (Tms.encodeSn m.seq m.encoding) :=
+  Transl.Tms.encode_sn_eq m
+
+/-- `decode_sn_and_encoding(data, idx)` for every byte string and natural read position -/
+theorem tms_decode_sn_eq (data : Bytes) (hd : Transl.Tms.isBytes data) (idx : Nat) :
+    TextMessagingService.decode_sn_and_encoding modelExt data (idx : Int)
+      = ofE (fun p : Nat × Nat × Option Tms.Encoding =>
+          ((p.1 : Int), (p.2.1 : Int), p.2.2.map (fun e => ((e.val : Nat) : Int)))) (Tms.decodeSn data idx) :=
+  Transl.Tms.decode_sn_eq data hd idx
+
+/-- `TextMessagingService.from_bytes(data)` is `Tms.fromBytes data` for every byte string of any length (it never returns
+`None`: the three members exhaust the enumeration) -/
+theorem tms_from_bytes_eq (data : Bytes) (hd : Transl.Tms.isBytes data) :
+    TextMessagingService.from_bytes modelExt data = ofE (fun m => some (tmsObj m)) (Tms.fromBytes data) :=
+  Transl.Tms.from_bytes_eq data hd
+
+/-- `TextMessagingService.as_bytes()` (the returned octets) of EVERY message of the model -/
+theorem tms_as_bytes_eq (m : Tms.Msg) :
+    TextMessagingService.as_bytes modelExt (tmsObj m) = ofE id (Tms.asBytes m) := Transl.Tms.as_bytes_eq m
+
+/-- `C16.tms_len_prefix` about the translated `as_bytes` -/
+theorem transl_tms_len_prefix (p : Tms.Msg) (bs : Bytes) (h : TextMessagingService.as_bytes modelExt (tmsObj p) = .ok bs) :
+    2 ≤ bs.length ∧ Tms.be (bs.take 2) = bs.length - 2 := by
+  rw [tms_as_bytes_eq] at h
+  exact C16.tms_len_prefix p bs (ofE_id_ok h)
+
+/-- `C16.tms_serialises` about the translated `as_bytes` -/
+theorem transl_tms_serialises (p : Tms.Msg) (h : Tms.wf p = true) :
+    ∃ bs, TextMessagingService.as_bytes modelExt (tmsObj p) = .ok bs := by
+  obtain ⟨bs, hb⟩ := C16.tms_serialises p h
+  exact ⟨bs, by rw [tms_as_bytes_eq, hb]; rfl⟩
+
+/-- `C16.tms_dec_enc` about the translated pair -/
+theorem transl_tms_dec_enc (p : Tms.Msg) (h : Tms.wf p = true) (bs : Bytes)
+    (hb : TextMessagingService.as_bytes modelExt (tmsObj p) = .ok bs) (hbs : Transl.Tms.isBytes bs) :
+    TextMessagingService.from_bytes modelExt bs = .ok (some (tmsObj (Tms.norm p))) := by
+  rw [tms_as_bytes_eq] at hb
+  rw [tms_from_bytes_eq bs hbs, C16.tms_dec_enc p h bs (ofE_id_ok hb)]
+  rfl
+
+/-- `C16.tms_enc_dec_enc` about the translated pair: serialise, parse, serialise again — identical octets -/
+theorem transl_tms_enc_dec_enc (p : Tms.Msg) (h : Tms.wf p = true) (bs : Bytes)
+    (hb : TextMessagingService.as_bytes modelExt (tmsObj p) = .ok bs) (hbs : Transl.Tms.isBytes bs) :
+    ∃ q, TextMessagingService.from_bytes modelExt bs = .ok (some q) ∧
+      TextMessagingService.as_bytes modelExt q = .ok bs := by
+  refine ⟨tmsObj (Tms.norm p), transl_tms_dec_enc p h bs hb hbs, ?_⟩
+  rw [tms_as_bytes_eq] at hb
+  rw [tms_as_bytes_eq, C16.tms_reencode p h, ofE_id_ok hb]
+  rfl
+
+example :
+    -- text message built with the library: acknowledged, address "1", sequence number 85, UCS2_LE, text "ab"
+    (TextMessagingService.from_bytes modelExt (hexb "0009e00131954461006200")).map
+        (fun o => o.bind (fun o => o.sequence_number)) = .ok (some (some 85)) ∧
+    (TextMessagingService.from_bytes modelExt (hexb "0009e00131954461006200")).map
+        (fun o => o.bind (fun o => o.message)) = .ok (some (some (hexb "61006200"))) ∧
+    (TextMessagingService.from_bytes modelExt (hexb "0009e00131954461006200")).map
+        (fun o => o.bind (fun o => o.encoding)) = .ok (some (some 4)) ∧
+    (TextMessagingService.from_bytes modelExt (hexb "0009e00131954461006200") >>= fun o =>
+        match o with
+        | some o => TextMessagingService.as_bytes modelExt o
+        | none => .error .value) = .ok (hexb "0009e00131954461006200") ∧
+    -- acknowledgement of sequence number 3
+    (TextMessagingService.from_bytes modelExt (hexb "00039f0003")).map
+        (fun o => o.bind (fun o => o.sequence_number)) = .ok (some (some 3)) ∧
+    TextMessagingService.from_bytes modelExt (hexb "0003bf00") = .error .index ∧
+    TextMessagingService.from_bytes modelExt (hexb "0003") = .error .assertion ∧
+    TextMessagingService.decode_sn_and_encoding modelExt (hexb "b544") (-2) = .ok (0, 85, some 4) ∧
+    FirstHeader.from_bytes modelExt (hexb "01") = .error .value := by
+  decide +kernel
+
+end TMS
 
 end Dmr.C16t
